@@ -210,6 +210,7 @@ def run(eng: Engine, ck: Check):
     from . import defs
     defs.transfer_identity(eng, ck, 'R-C17-REPAIR')
     defs.transfer_state_sets(eng, ck, 'R-C17-REPAIR', which=('is_processing',))
+    store_on_stop_rule(eng, ck)
     # ---- R-C17-WRITE
     w = eng.func(TCACHE, 'TransferShelveCache.write')
     ck.visited(w)
@@ -347,3 +348,30 @@ def run(eng: Engine, ck: Check):
               injective, f'key material `{unparse(material)}` concatenates {len(var_strs)} variable-length strings without a delimiter or length prefix: '
               '("ab","c") and ("a","bc") hash to the same key, one record overwrites the other', construct='key injective')
     defs.job_raises_nothing_typed(eng, ck, 'R-C17-REPAIR', TM, 'TransferManager._management_job', 'loaded transfers are picked up by the scheduling job, which runs before the first login')
+
+
+def store_on_stop_rule(eng: Engine, ck: Check):
+    """R-C17-WRITE (stop): SoulSeekClient.stop() ends by writing every service's cache.  The transfer list is written whatever the OTHER
+    services' store_data() do (the shares index is the large file: full disk, vanished directory, an application-supplied cache that
+    raises): the calls are gathered -- each runs to its end before the first failure is re-raised -- or each is protected on its own."""
+    st = eng.func('client.py', 'SoulSeekClient.stop')
+    ck.visited(st)
+    calls = [x for x in calls_in(st.node) if call_name(x) == 'store_data']
+    ck.floor('R-C17-WRITE.store_on_stop', len(calls), 1)
+    for x in calls:
+        gathered = any(isinstance(a_, ast.Call) and call_name(a_) == 'gather' for a_ in ancestors(x))
+        if not gathered and not isinstance(parent(x), ast.Await):
+            # the coroutines are only CREATED here (collected in a list) and started together by one gather(*list)
+            par = parent(x)
+            lst = unparse(par.func.value) if isinstance(par, ast.Call) and call_name(par) in ('append', 'add') and isinstance(par.func, ast.Attribute) else None
+            if lst is None:
+                stx = enclosing_stmt(x)
+                lst = unparse(stx.targets[0]) if isinstance(stx, ast.Assign) and isinstance(stx.value, (ast.ListComp, ast.List)) else None
+            gathered = lst is not None and any(call_name(g_) == 'gather' and any(isinstance(a_, ast.Starred) and unparse(a_.value) == lst for a_ in g_.args) and
+                                               isinstance(parent(g_), ast.Await) for g_ in calls_in(st.node))
+        own_try = protected_by_try_catching(eng, st, x, 'Exception', 'BaseException') is not None and any(isinstance(a_, (ast.For, ast.AsyncFor)) for a_ in ancestors(x)) and \
+            any(isinstance(a_, ast.Try) and any(isinstance(b_, (ast.For, ast.AsyncFor)) for b_ in ancestors(a_)) for a_ in ancestors(x))
+        single = not any(isinstance(a_, (ast.For, ast.AsyncFor, ast.ListComp, ast.GeneratorExp)) for a_ in ancestors(x))
+        ck.ob('R-C17-WRITE', st, x, 'stop() writes the caches of all services independently of each other (gathered, or each call protected on its own)',
+              gathered or own_try or (single and False), f'`{unparse(enclosing_stmt(x))[:70]}` awaits the services one after the other: an exception from an earlier one (the shares '
+              'index cannot be written) leaves stop() before TransferManager.store_data() runs; nothing of this session is persisted', construct='store_data isolated on stop')
